@@ -337,7 +337,7 @@ func (p *pruneRun) readable(H uint64) int {
 
 func (p *pruneRun) restart() bool {
 	p.n.Close()
-	nd2 := &nodeDBs{raw: p.nd.raw, c: newCtl()}
+	nd2 := p.nd.reopen()
 	n2, err, pan := openWrapped(p.g, nd2)
 	if err != nil || pan != nil {
 		p.viol("prune/restart-failed", fmt.Sprintf("OpenNode after pruning: err=%v panic=%v", err, pan), nil)
